@@ -435,7 +435,7 @@ prop("C08",
           "start + bytes sent before the drop + 1; the consumer of the pipe sees RDB || stream continue byte-exactly across the reconnect. (end to end) "
           "batches of 4-8 complete DbSyncer.Sync() runs with resume on against fake source + model target, starting fresh (PSYNC ? -1), from a checkpoint left by an "
           "earlier run that the source answers with +CONTINUE, or from one with an older run id that the source answers with FULLRESYNC under a new run id: LoadCheckpoint, PSYNC (first request checked), full sync of a small RDB, "
-          (the RDB optionally arrives in two pieces 60 ms apart; a run resumed with +CONTINUE may continue without a leading SELECT) "
+          "(the RDB optionally arrives in two pieces 60 ms apart; a run resumed with +CONTINUE may continue without a leading SELECT) "
           "then 5-18 commands (RPUSH/SELECT/PING, PING also in inline form, 0-2 keep-alive newlines in front of each) spread over >= 2.6 s with an optional drop: target applies exactly the source's commands once and in order, reconnect "
           "offset exact, and every checkpoint offset stored in the target == start (the resumed db announcement) or start + end position of the last source command forwarded up to and including its batch (not of a command still waiting), under the run id that produced it (checked against "
           "the number of data commands applied when it was stored). Non-trivial: >=2 ACKs or a drop; every end-to-end run. Distinct = hash of the script.",
